@@ -325,7 +325,7 @@ def check_scu(ctx, case):
             got = None
         exp = K.ds_plain(want)
         if got is not None and got != exp:
-            ctx.fail("dataset-sent", f"request-dataset-differs:{sig.diff_path(exp, got)}", f"{op}: sent {got} != supplied {exp} under {ts}")
+            ctx.fail("dataset-sent", "request-dataset-differs", f"{op}: first difference {sig.diff_path(exp, got)}; sent {got} != supplied {exp} under {ts}")
     # hand-off to the peer's service layer: the same P-DATA through an acceptor's DIMSE provider
     if vals is not None and (vals.get("CommandDataSetType") != 0x0101) == bool(m.data) and op != "n_event_report":
         b = mk("acceptor", [(abstract, ts, False, True, 1)] + ([(K.CT, ts, True, False, 3)] if len(contexts) > 1 else []))
